@@ -260,10 +260,20 @@ def run_cbmc(job, wd, tier, inputs):
     cfiles = [os.path.join(ROOT, 'harness', job['harness']), os.path.join(wd, 'unit.c'), os.path.join(ROOT, 'rt', 'rt.c')]
     names = loop_names(cfiles + inc, dfl)
     t0 = time.time()
-    hints = profile_bounds(job, wd, inputs, cfiles, inc, dfl)
-    bounds = {nm: hints.get(nm, 0) + 1 + job.get('unwind_margin', 0) for nm in names}
+    # loop bounds that a previous PASSING run of this job established (committed under bounds/): a head start only -- every bound is
+    # still checked by its unwinding assertion in this run and raised if it fails; a different loop set (changed code) ignores the cache
+    cache_p = os.path.join(ROOT, 'bounds', job['name'] + '.json'); cache = {}
+    try:
+        cache = json.load(open(cache_p))
+    except Exception: pass
+    if cache and set(cache) == set(names) and not os.environ.get('VERIF_NO_BOUND_CACHE'):
+        hints = {}; bounds = dict(cache)
+    else:
+        cache = {}
+        hints = profile_bounds(job, wd, inputs, cfiles, inc, dfl)
+        bounds = {nm: hints.get(nm, 0) + 1 + job.get('unwind_margin', 0) for nm in names}
     for nm in names:   # loops of the harness / oracle / runtime (not translated code): constant trip counts, give them a floor
-        if not nm.startswith('F_') and nm not in hints: bounds[nm] = max(bounds[nm], job.get('harness_unwind', 12))   # never seen iterating in the profile runs
+        if not cache and not nm.startswith('F_') and nm not in hints: bounds[nm] = max(bounds[nm], job.get('harness_unwind', 12))   # never seen iterating in the profile runs
     for rx, b in job.get('unwind_rules', []):
         for nm in names:
             if re.search(rx, nm): bounds[nm] = max(bounds[nm], b)
@@ -280,6 +290,12 @@ def run_cbmc(job, wd, tier, inputs):
         if not grow: break
         for nm in grow: bounds[nm] = max(bounds.get(nm, 1) + 3, 2 * bounds.get(nm, 1))   # bound too small: reported by the unwinding assertion, raised, re-run
         res['refined'] = grow
+    if res['status'] == 'DONE' and not any(f[1] == 'BOUND' for f in res['failed']) and not TAG:
+        try:
+            os.makedirs(os.path.join(ROOT, 'bounds'), exist_ok=True)
+            json.dump(bounds, open(cache_p, 'w'), indent=0, sort_keys=True)
+        except Exception: pass
+    res['bounds_from_cache'] = bool(cache)
     res['rounds'] = rounds; res['t_profile_and_rounds'] = round(time.time() - t0, 1); res['bound_hints_from_concrete_runs'] = len(hints)
     return res
 
@@ -427,7 +443,7 @@ def main():
             'technique': 'bounded symbolic execution of the real C++ (clang LLVM IR -> C -> CBMC/SAT), counterexamples replayed on the real build',
             'functions_encoded': funcs,
             'jobs': [{k: r.get(k) for k in ('job', 'status', 'reason', 'defs', 'bounds', 'wall_s', 'differential', 'notes')} | {
-                'cbmc': {k: r['cbmc'].get(k) for k in ('wall_s', 'rss_mb', 'n_properties', 'by_class', 'unwind_default', 'unwindset', 'solver', 'loops', 'status', 'rounds', 'bound_hints_from_concrete_runs')} if 'cbmc' in r else None,
+                'cbmc': {k: r['cbmc'].get(k) for k in ('wall_s', 'rss_mb', 'n_properties', 'by_class', 'unwind_default', 'unwindset', 'solver', 'loops', 'status', 'rounds', 'bound_hints_from_concrete_runs', 'bounds_from_cache')} if 'cbmc' in r else None,
                 'translation': {k: r['build'].get(k) for k in ('ir_lines', 'mem_lowering', 't_clang', 't_ll2c', 'externals')} if 'build' in r else None}
                 for r in results],
             'queries_discharged': nq, 'solver_time_s': round(sum(r['cbmc']['wall_s'] for r in done), 1),
